@@ -1,4 +1,258 @@
 import AslModel.Utf
+import AslProofs.Utf
+/-!
+# C08 — UTF-8/16/32 conversions are lossless on valid text and safe on any bytes
+
+Property theorems only (helper lemmas: `AslProofs/Utf.lean`; models: `AslModel/Utf.lean`, which the
+driver `Driver/C08.lean` runs against the real library on every check).
+
+Specifications are independent of the code: a Unicode scalar value is Lean's `Char`, its UTF-8 form is
+Lean core's own encoder `String.utf8EncodeChar` (so `Std.utf8 cs` is the byte content of
+`String.ofList cs`), UTF-16 is written from the standard (D91: one unit below 0x10000, otherwise the
+surrogate pair of `v - 0x10000`), the C-locale case mapping is the literal `a–z ↔ A–Z` shift.
+A reader returning `none` is a read outside the allocation; a result list is what was stored, in order.
+-/
 namespace C08
-theorem placeholder : True := trivial
+open AslModel.Utf AslProofs.Utf Gen.Unicode
+
+/-! ## specifications -/
+namespace Std
+/-- UTF-8 of a sequence of scalar values (Lean core's encoder) -/
+def utf8 (cs : List Char) : List UInt8 := cs.flatMap String.utf8EncodeChar
+/-- UTF-16 of one scalar value (Unicode standard §3.9 D91) -/
+def utf16Char (v : Nat) : List Nat :=
+  if v < 0x10000 then [v] else [(v - 0x10000) / 0x400 + 0xD800, (v - 0x10000) % 0x400 + 0xDC00]
+def utf16 (cs : List Char) : List Nat := cs.flatMap fun c => utf16Char c.toNat
+/-- the code points -/
+def codes (cs : List Char) : List Nat := cs.map Char.toNat
+/-- C-locale `toupper`/`tolower` on a byte -/
+def toupperC (b : UInt8) : UInt8 := if 97 ≤ b ∧ b ≤ 122 then b - 32 else b
+def tolowerC (b : UInt8) : UInt8 := if 65 ≤ b ∧ b ≤ 90 then b + 32 else b
+end Std
+
+/-- NUL terminates every C string of the library, so text is a sequence of non-NUL scalar values -/
+def NoNul (cs : List Char) : Prop := ∀ c ∈ cs, c.toNat ≠ 0
+
+theorem utf8_is_core_toUTF8 (cs : List Char) : Std.utf8 cs = (String.ofList cs).toUTF8.data.toList := by
+  simp [Std.utf8, String.toUTF8, String.toByteArray_ofList, List.utf8Encode]
+
+/-! ## valid text: standard encodings and round trips, for every sequence of scalar values -/
+
+/-- `utf32toUtf8` on the code points of `cs` (terminator, then anything) with a budget that does not
+    bind writes exactly the standard UTF-8 -/
+theorem utf32toUtf8_std (cs : List Char) (h : NoNul cs) (junk : List Int) (n : Int) (hn : n ≤ 0 ∨ (cs.length : Int) < n) :
+    utf32toUtf8 ((Std.codes cs).map Int.ofNat ++ 0 :: junk) n = some (Std.utf8 cs) := by
+  induction cs generalizing n with
+  | nil => simp [Std.codes, Std.utf8, utf32toUtf8]
+  | cons ch t ih =>
+    have h0 : ch.toNat ≠ 0 := h ch (by simp)
+    have ht : NoNul t := fun c hc => h c (by simp [hc])
+    simp only [Std.codes, List.map_cons, List.cons_append, Std.utf8, List.flatMap_cons] at *
+    rw [show Int.ofNat ch.toNat = (ch.toNat : Int) from rfl, e32_char ch h0]
+    have hne : ¬ (n - 1 = 0) := by simp only [List.length_cons] at hn; omega
+    rw [ih ht (n - 1) (by simp only [List.length_cons] at hn; omega)]
+    simp [contB, hne]
+
+/-- `String::fromCodes` produces the standard UTF-8 of every sequence of scalar values -/
+theorem utf8_std (cs : List Char) (h : NoNul cs) :
+    fromCodes ((Std.codes cs).map Int.ofNat) = some (Std.utf8 cs) := by
+  unfold fromCodes
+  apply utf32toUtf8_std cs h []
+  right; simp only [Std.codes, List.length_map]; omega
+
+/-- `String::fromCode` on one scalar value -/
+theorem utf8_std_single (c : Char) (h : c.toNat ≠ 0) : fromCode (c.toNat : Int) = some (String.utf8EncodeChar c) := by
+  unfold fromCode
+  rw [e32_char c h]
+  simp [contB]
+
+theorem utf8_length_ge (cs : List Char) (h : NoNul cs) : cs.length ≤ (Std.utf8 cs).length := by
+  induction cs with
+  | nil => simp [Std.utf8]
+  | cons ch t ih =>
+    have ht : NoNul t := fun c hc => h c (by simp [hc])
+    have := (enc_char ch (h ch (by simp))).length_eq
+    simp only [Std.utf8, List.flatMap_cons, List.length_append, List.length_cons] at *
+    have := ih ht
+    split at * <;> (try split at *) <;> (try split at *) <;> omega
+
+/-- `utf8toUtf32` on standard UTF-8 (terminator, then anything) returns the code points -/
+theorem utf8toUtf32_std (cs : List Char) (h : NoNul cs) (junk : List UInt8) (n : Int)
+    (hn : n ≤ 0 ∨ (cs.length : Int) ≤ n) :
+    utf8toUtf32 (Std.utf8 cs ++ 0 :: junk) n = some (Std.codes cs) := by
+  induction cs generalizing n with
+  | nil => rw [utf8toUtf32.eq_def]; simp [Std.codes, Std.utf8]
+  | cons ch t ih =>
+    have h0 : ch.toNat ≠ 0 := h ch (by simp)
+    have ht : NoNul t := fun c hc => h c (by simp [hc])
+    simp only [Std.codes, List.map_cons, Std.utf8, List.flatMap_cons, List.append_assoc] at *
+    rw [d32_enc _ _ (enc_char ch h0)]
+    simp only [List.length_cons] at hn
+    by_cases hz : n - 1 = 0
+    · have : t = [] := by
+        cases t with
+        | nil => rfl
+        | cons a b => simp only [List.length_cons] at hn; omega
+      subst this
+      simp [contN, hz]
+    · rw [ih ht (n - 1) (by omega)]
+      simp [contN, hz]
+
+/-- UTF-32 → UTF-8 → UTF-32 is the identity on every sequence of (non-NUL) scalar values:
+    `fromCodes(cs).chars() == cs` -/
+theorem utf32_utf8_roundtrip (cs : List Char) (h : NoNul cs) :
+    (fromCodes ((Std.codes cs).map Int.ofNat)).bind chars = some (Std.codes cs) := by
+  rw [utf8_std cs h]
+  simp only [Option.bind_some, chars, mem]
+  apply utf8toUtf32_std cs h []
+  have := utf8_length_ge cs h
+  omega
+
+theorem utf16Char_ne_zero (ch : Char) (h0 : ch.toNat ≠ 0) : ∀ u ∈ Std.utf16Char ch.toNat, u ≠ 0 := by
+  unfold Std.utf16Char
+  split <;> simp <;> omega
+
+/-- `utf8toUtf16` on standard UTF-8 returns the standard UTF-16 (surrogate pairs from 0x10000) -/
+theorem utf8toUtf16_std (cs : List Char) (h : NoNul cs) (junk : List UInt8) (n : Int)
+    (hn : n ≤ 0 ∨ (cs.length : Int) ≤ n) :
+    utf8toUtf16 (Std.utf8 cs ++ 0 :: junk) n = some (Std.utf16 cs) := by
+  induction cs generalizing n with
+  | nil => rw [utf8toUtf16.eq_def]; simp [Std.utf16, Std.utf8]
+  | cons ch t ih =>
+    have h0 : ch.toNat ≠ 0 := h ch (by simp)
+    have ht : NoNul t := fun c hc => h c (by simp [hc])
+    simp only [Std.utf16, Std.utf8, List.flatMap_cons, List.append_assoc] at *
+    rw [d16_enc _ _ (enc_char ch h0)]
+    have hu : (if ch.toNat < 65536 then [ch.toNat] else surrogates ch.toNat) = Std.utf16Char ch.toNat := by
+      unfold Std.utf16Char
+      split
+      · rfl
+      · rw [surrogates_std _ (by omega) (by have := char_lt ch; omega)]
+    rw [hu]
+    simp only [List.length_cons] at hn
+    by_cases hz : n - 1 = 0
+    · have : t = [] := by
+        cases t with
+        | nil => rfl
+        | cons a b => simp only [List.length_cons] at hn; omega
+      subst this
+      simp [contN, hz]
+    · rw [ih ht (n - 1) (by omega)]
+      simp [contN, hz]
+
+/-- `utf16toUtf8` on standard UTF-16 returns the standard UTF-8 -/
+theorem utf16toUtf8_std (cs : List Char) (h : NoNul cs) (junk : List Int) (n : Int)
+    (hn : n ≤ 0 ∨ (cs.length : Int) < n) :
+    utf16toUtf8 ((Std.utf16 cs).map Int.ofNat ++ 0 :: junk) n = some (Std.utf8 cs) := by
+  induction cs generalizing n with
+  | nil => rw [utf16toUtf8.eq_def]; simp [Std.utf16, Std.utf8]
+  | cons ch t ih =>
+    have h0 : ch.toNat ≠ 0 := h ch (by simp)
+    have ht : NoNul t := fun c hc => h c (by simp [hc])
+    simp only [Std.utf16, Std.utf8, List.flatMap_cons, List.map_append, List.append_assoc] at *
+    have hne : ¬ (n - 1 = 0) := by simp only [List.length_cons] at hn; omega
+    have hrec := ih ht (n - 1) (by simp only [List.length_cons] at hn; omega)
+    by_cases hb : ch.toNat < 65536
+    · have hu : Std.utf16Char ch.toNat = [ch.toNat] := by simp [Std.utf16Char, hb]
+      rw [hu]
+      simp only [List.map_cons, List.map_nil, List.cons_append, List.nil_append]
+      rw [show Int.ofNat ch.toNat = (ch.toNat : Int) from rfl, e16_bmp ch h0 hb, hrec]
+      simp [contB, hne]
+    · have hu : Std.utf16Char ch.toNat = [(ch.toNat - 0x10000) / 0x400 + 0xD800, (ch.toNat - 0x10000) % 0x400 + 0xDC00] := by
+        simp [Std.utf16Char, hb]
+      rw [hu]
+      simp only [List.map_cons, List.map_nil, List.cons_append, List.nil_append]
+      have := e16_pair ch (by omega) (List.map Int.ofNat (List.flatMap (fun c => Std.utf16Char c.toNat) t) ++ 0 :: junk) n
+      simp only [Int.ofNat_eq_natCast] at *
+      rw [this, hrec]
+      simp [contB, hne]
+
+theorem utf16_ne_zero (cs : List Char) (h : NoNul cs) : ∀ u ∈ Std.utf16 cs, u ≠ 0 := by
+  intro u hu
+  simp only [Std.utf16, List.mem_flatMap] at hu
+  obtain ⟨c, hc, hu⟩ := hu
+  exact utf16Char_ne_zero c (h c hc) u hu
+
+theorem utf16_length_ge (cs : List Char) : cs.length ≤ (Std.utf16 cs).length := by
+  induction cs with
+  | nil => simp [Std.utf16]
+  | cons ch t ih =>
+    simp only [Std.utf16, List.flatMap_cons, List.length_append, List.length_cons] at *
+    have : 1 ≤ (Std.utf16Char ch.toNat).length := by unfold Std.utf16Char; split <;> simp
+    omega
+
+theorem takeWhile_ne_zero_nat (l : List Nat) (h : ∀ u ∈ l, u ≠ 0) : l.takeWhile (· != 0) = l := by
+  induction l with
+  | nil => rfl
+  | cons a t ih =>
+    have ha : a ≠ 0 := h a (by simp)
+    simp only [List.takeWhile_cons, bne_iff_ne, ne_eq, ha, not_false_eq_true, if_true]
+    rw [ih (fun u hu => h u (by simp [hu]))]
+
+theorem takeWhile_int_units (l : List Nat) (h : ∀ u ∈ l, u ≠ 0) :
+    (l.map Int.ofNat ++ [0]).takeWhile (· != 0) = l.map Int.ofNat := by
+  induction l with
+  | nil => simp
+  | cons a t ih =>
+    have ha : ¬ (Int.ofNat a = 0) := by have := h a (by simp); simp only [Int.ofNat_eq_natCast]; omega
+    simp only [List.map_cons, List.cons_append, List.takeWhile_cons, bne_iff_ne, ne_eq, ha,
+      not_false_eq_true, if_true]
+    rw [ih (fun u hu => h u (by simp [hu]))]
+
+/-- `String::dataw()` (`operator const wchar_t*`) of standard UTF-8 is the standard UTF-16 -/
+theorem utf8_utf16_std (cs : List Char) (h : NoNul cs) : dataw (Std.utf8 cs) = some (Std.utf16 cs) := by
+  unfold dataw mem
+  apply utf8toUtf16_std cs h []
+  have := utf8_length_ge cs h
+  omega
+
+/-- `String(const wchar_t*)` on standard UTF-16 is the standard UTF-8 -/
+theorem utf16_utf8_std (cs : List Char) (h : NoNul cs) :
+    fromWide ((Std.utf16 cs).map Int.ofNat ++ [0]) = some (Std.utf8 cs) := by
+  unfold fromWide
+  rw [takeWhile_int_units _ (utf16_ne_zero cs h)]
+  apply utf16toUtf8_std cs h []
+  right
+  have := utf16_length_ge cs
+  simp only [List.length_map, capAfterInit]
+  split <;> omega
+
+/-- UTF-8 → UTF-16 → UTF-8 returns the original on every sequence of scalar values
+    (`String(s.dataw()) == s`, what the harness prints as `back`) -/
+theorem utf8_utf16_roundtrip (cs : List Char) (h : NoNul cs) :
+    (dataw (Std.utf8 cs)).bind (fun w => fromWide ((wcs w).map Int.ofNat ++ [0])) = some (Std.utf8 cs) := by
+  rw [utf8_utf16_std cs h]
+  simp only [Option.bind_some, wcs]
+  rw [takeWhile_ne_zero_nat _ (utf16_ne_zero cs h)]
+  exact utf16_utf8_std cs h
+
+/-- `count()`, `chars()` and code-point iteration agree on number and values of the characters of valid text;
+    the iteration advances by the UTF-8 size of each character -/
+theorem count_chars_iter_agree (cs : List Char) (h : NoNul cs) :
+    count (Std.utf8 cs) = some cs.length ∧
+    chars (Std.utf8 cs) = some (Std.codes cs) ∧
+    iter (Std.utf8 cs) = some (cs.map fun c => (c.toNat, c.utf8Size)) := by
+  refine ⟨?_, ?_, ?_⟩
+  · unfold count mem
+    induction cs with
+    | nil => simp [Std.utf8, countFrom]
+    | cons ch t ih =>
+      have ht : NoNul t := fun c hc => h c (by simp [hc])
+      simp only [Std.utf8, List.flatMap_cons, List.append_assoc] at *
+      rw [count_enc _ (enc_char ch (h ch (by simp))), ih ht]
+      simp
+  · unfold chars mem
+    apply utf8toUtf32_std cs h []
+    have := utf8_length_ge cs h
+    omega
+  · unfold iter mem
+    induction cs with
+    | nil => simp [Std.utf8, enumAll]
+    | cons ch t ih =>
+      have ht : NoNul t := fun c hc => h c (by simp [hc])
+      have he := enc_char ch (h ch (by simp))
+      simp only [Std.utf8, List.flatMap_cons, List.append_assoc] at *
+      rw [enum_enc _ he, ih ht]
+      simp [String.length_utf8EncodeChar]
+
 end C08
